@@ -36,7 +36,10 @@ class RecvmsgSelectorDatagramTransport(BaseTransport):
     This does not implement any flow control, based on the assumption that it's
     not needed, for CoAP has its own flow control mechanisms."""
 
-    max_size = 4096  # Buffer size passed to recvmsg() -- should suffice for a full MTU package and ample ancdata
+    # Buffer size passed to recvmsg(). No UDP datagram is longer than this, so
+    # none is cut short on reception (the protocol would have to ignore it, as
+    # the start of a CoAP message usually parses as a different message).
+    max_size = 65536
 
     def __init__(self, loop, sock, protocol, waiter):
         super().__init__(extra={"socket": sock})
